@@ -164,7 +164,27 @@ type plan struct {
 	Ops      []opPlan
 	Gens     [][2]string // hex trace id, hex span id
 	Blocking bool        // batch processor built WithBlocking (enqueueBlockOnQueueFull) or not (enqueueDrop)
+	Stock    bool        // use the SDK's stock random ID generator over the scripted source below
+	Words    []uint64    // 63-bit words the source answers, then Fill for ever
+	Fill     uint64
 }
+
+// scriptSrc is a counting rand.Source answering a script.
+type scriptSrc struct {
+	words []uint64
+	fill  uint64
+	n     int
+}
+
+func (s *scriptSrc) Int63() int64 {
+	v := s.fill
+	if s.n < len(s.words) {
+		v = s.words[s.n]
+	}
+	s.n++
+	return int64(v & (1<<63 - 1))
+}
+func (s *scriptSrc) Seed(int64) {}
 
 type spanObs struct {
 	TID, SID  string
@@ -188,6 +208,7 @@ type progObs struct {
 	Calls     []callObs
 	Problems  []string
 	GenOutrun bool
+	Consumed  int
 }
 
 type planGen struct {
@@ -260,7 +281,13 @@ func runProgram(s *samp, p plan) progObs {
 		bopts = append(bopts, sdktrace.WithBlocking())
 	}
 	bsp := sdktrace.NewBatchSpanProcessor(e2, bopts...)
-	opts := []sdktrace.TracerProviderOption{sdktrace.WithIDGenerator(gen),
+	var idgen sdktrace.IDGenerator = gen
+	var src *scriptSrc
+	if p.Stock {
+		src = &scriptSrc{words: p.Words, fill: p.Fill}
+		idgen = sdktrace.NewRandomIDGeneratorForVerif(src)
+	}
+	opts := []sdktrace.TracerProviderOption{sdktrace.WithIDGenerator(idgen),
 		sdktrace.WithSpanProcessor(sdktrace.NewSimpleSpanProcessor(e1)), sdktrace.WithSpanProcessor(bsp)}
 	if s != nil {
 		opts = append(opts, sdktrace.WithSampler(recSampler{inner: s.build(rec), rec: rec}))
@@ -317,6 +344,9 @@ func runProgram(s *samp, p plan) progObs {
 	_ = tp.ForceFlush(bg)
 	_ = tp.Shutdown(bg)
 	o.Exp1, o.Exp2, o.Calls, o.GenOutrun = e1.ids, e2.ids, gen.calls, gen.out
+	if src != nil {
+		o.Consumed = src.n
+	}
 	return o
 }
 
@@ -608,7 +638,10 @@ func (p plan) describe() []string {
 		if op.NewRoot {
 			s += " +newroot"
 		}
-		out = append(out, fmt.Sprintf("#%d %s gen=%s/%s", i, s, p.Gens[i][0], p.Gens[i][1]))
+		if i < len(p.Gens) {
+			s += fmt.Sprintf(" gen=%s/%s", p.Gens[i][0], p.Gens[i][1])
+		}
+		out = append(out, fmt.Sprintf("#%d %s", i, s))
 	}
 	return out
 }
@@ -812,6 +845,147 @@ func main() {
 			n = 40
 		}
 		addProg(s, genPlan(r, n, ratiosIn(s, nil)), "program")
+	}
+
+	// tracestate on every decision: the ratio sampler used directly (and behind ParentBased, and the constant
+	// samplers), parents with a non-empty tracestate, trace ids on both sides of the bound
+	nTS := o.Count(160, 4000)
+	for i := 0; i < nTS; i++ {
+		bits := genRatio(r)
+		if r.Chance(1, 2) {
+			bits = vgen.Pick(r, []uint64{bitsOf(0.5), bitsOf(0.25), bitsOf(0.001), bitsOf(0.999), bitsOf(p63 * 3)})
+		}
+		var s *samp
+		switch r.Intn(6) {
+		case 0:
+			s = &samp{Kind: "never"}
+		case 1:
+			s = &samp{Kind: "parent", Sub: []*samp{{Kind: "ratio", Bits: bits}, {Kind: "always"}, {Kind: "never"}, {Kind: "always"}, {Kind: "never"}}}
+		case 2:
+			s = &samp{Kind: "parent", Sub: []*samp{{Kind: "never"}, {Kind: "ratio", Bits: bits}, {Kind: "ratio", Bits: bits}, {Kind: "ratio", Bits: bits}, {Kind: "ratio", Bits: bits}}}
+		default:
+			s = &samp{Kind: "ratio", Bits: bits}
+		}
+		_, bd := boundOf(bits)
+		var p plan
+		p.Blocking = r.Bool()
+		n := r.Intn(3) + 1
+		for j := 0; j < n; j++ {
+			x := (bd + uint64(r.Intn(4)) - 2) & (1<<63 - 1) // bd-2 .. bd+1
+			t := tidWith(r, x, r.U64())
+			c := ctxPlan{TID: hex.EncodeToString(t[:]), SID: fmt.Sprintf("%016x", r.U64()|1), Flags: vgen.Pick(r, []byte{0, 1, 0, 1, 0xfe, 0xff}),
+				TS: vgen.Pick(r, []string{"a=1", "k=v,x=y", "rojo=00f067aa0ba902b7,congo=t61rcWkgMzE"}), Remote: r.Bool()}
+			p.Ops = append(p.Ops, opPlan{Kind: 2, Ctx: c})
+			p.Ops = append(p.Ops, opPlan{Kind: 1, Idx: len(p.Ops) - 1})
+			if r.Chance(1, 3) {
+				p.Ops = append(p.Ops, opPlan{Kind: 1, Idx: len(p.Ops) - 1})
+			}
+		}
+		for j := range p.Ops {
+			t := tidWith(r, genCoord(r, bits), r.U64())
+			p.Gens = append(p.Gens, [2]string{hex.EncodeToString(t[:]), fmt.Sprintf("%016x", uint64(j+1)<<32|uint64(r.Intn(1<<20))<<4|1)})
+		}
+		addProg(s, p, "program-tracestate")
+	}
+
+	// the stock ID generator over scripted sources: runs of zero words at every alignment
+	// relative to the 16-byte and 8-byte reads
+	addStock := func(s *samp, p plan, kind string) {
+		desc := map[string]any{"op": "stock-generator", "sampler": s.String(), "words": fmt.Sprintf("%#x", p.Words), "starts": p.describe()}
+		guard(desc, func() {
+			ob := runProgram(s, p)
+			for _, pr := range ob.Problems {
+				w.Violation(pr, desc)
+			}
+			var ws []string
+			for _, x := range p.Words {
+				ws = append(ws, vgen.N(x))
+			}
+			tail := ob.coqTail()
+			desc["words_consumed"] = ob.Consumed
+			w.Tally("stock")
+			w.Add(vgen.App("CStock", vgen.List(ws), vgen.N(p.Fill), s.coq(), p.opsCoq(), tail[0], tail[1], tail[2], vgen.N(uint64(ob.Consumed))),
+				desc, kind, true)
+		})
+	}
+	const fillWord = 0x0101010101010101 & (1<<63 - 1)
+	nz := func() uint64 {
+		switch r.Intn(4) {
+		case 0:
+			return uint64(1) << (8 * uint(r.Intn(7))) // a single non-zero byte
+		case 1:
+			return uint64(0xff) << (8 * uint(r.Intn(7)))
+		case 2:
+			return 1 << 56 // only bits above the seven bytes Read uses: reads as zero bytes
+		default:
+			return r.U64()>>1 | 1
+		}
+	}
+	stockOps := func(n int) []opPlan {
+		var ops []opPlan
+		for i := 0; i < n; i++ {
+			op := opPlan{}
+			switch k := r.Intn(6); {
+			case k < 2 || i == 0:
+				op.Kind = 0
+			case k < 5:
+				op.Kind, op.Idx = 1, r.Intn(i)
+			default:
+				t := tidWith(r, r.U64()>>1, 1)
+				t[0] |= 1
+				op.Kind, op.Ctx = 2, ctxPlan{TID: hex.EncodeToString(t[:]), SID: fmt.Sprintf("%016x", r.U64()|1), Flags: byte(r.Intn(2)), TS: vgen.Pick(r, tsPool), Remote: r.Bool()}
+			}
+			op.NewRoot = r.Chance(1, 10)
+			ops = append(ops, op)
+		}
+		return ops
+	}
+	stockSampler := func() *samp {
+		return vgen.Pick(r, []*samp{{Kind: "always"}, {Kind: "never"},
+			{Kind: "parent", Sub: []*samp{{Kind: "always"}, {Kind: "always"}, {Kind: "never"}, {Kind: "always"}, {Kind: "never"}}}})
+	}
+	tailWords := func(n int) []uint64 {
+		var ws []uint64
+		for i := 0; i < n; i++ {
+			ws = append(ws, r.U64()>>1|1<<uint(r.Intn(56)))
+		}
+		return ws
+	}
+	for lead := 0; lead < 4; lead++ { // systematic: `lead` non-zero words, then a run of z zero words
+		for z := 0; z <= 9; z++ {
+			var ws []uint64
+			for i := 0; i < lead; i++ {
+				ws = append(ws, nz())
+			}
+			for i := 0; i < z; i++ {
+				ws = append(ws, 0)
+			}
+			ws = append(ws, nz())
+			ws = append(ws, make([]uint64, z%4)...) // a second, short run
+			ws = append(ws, tailWords(24)...)
+			ops := []opPlan{{Kind: 0}, {Kind: 1, Idx: 0}, {Kind: 0}, {Kind: 1, Idx: 2}, {Kind: 1, Idx: 1}, {Kind: 0, NewRoot: true}}
+			if z%2 == 1 { // start with a child of a hand-made parent: the first read is the 8-byte one
+				t := tidWith(r, 77, 1)
+				ops[0] = opPlan{Kind: 2, Ctx: ctxPlan{TID: hex.EncodeToString(t[:]), SID: "00000000000000b1", Flags: 1, TS: "a=1", Remote: true}}
+			}
+			addStock(stockSampler(), plan{Ops: ops, Stock: true, Words: ws, Fill: fillWord, Blocking: r.Bool()}, "stock-corpus")
+		}
+	}
+	nStock := o.Count(110, 3000)
+	for i := 0; i < nStock; i++ {
+		n := r.Intn(8) + 1
+		var ws []uint64
+		alt := r.Chance(1, 4)
+		for j := 0; j < 10+4*n; j++ {
+			switch {
+			case alt && j%2 == 0, !alt && r.Chance(11, 20):
+				ws = append(ws, 0)
+			default:
+				ws = append(ws, nz())
+			}
+		}
+		ws = append(ws, tailWords(8)...)
+		addStock(stockSampler(), plan{Ops: stockOps(n), Stock: true, Words: ws, Fill: fillWord, Blocking: r.Bool()}, "stock")
 	}
 
 	// environment table (child process per scenario)
